@@ -93,6 +93,12 @@ type rec struct {
 	lastShot int64
 	gunCtx   int64
 	shots    map[int64]int64
+	// round 6: the token every instance goroutine drew last from an RPS schedule (by goroutine id), and for every discarded
+	// shot (Aggregator.Report of the discard sample, made by the instance goroutine itself) the instant of the report minus the
+	// time of that token: how late the token was AT MOST when the Waiter judged it
+	lastTok  map[int64]int64
+	discards []int64
+	stalled  int64 // instant at which a stalled shot (stall=) returned, -1 = none
 }
 
 func (r *rec) cut(kind string) {
@@ -132,6 +138,10 @@ type rpsSched struct {
 	first int64 // -1: Next not called yet
 	fin   int64 // -1: not finished yet
 	given int64 // tokens handed out by this object (successful Next calls)
+	// round 6: calls of Next that have entered the wrapped schedule and not yet returned; atfin = given + inflight at the
+	// first "finished" answer: an upper bound of the tokens the wrapped schedule had handed out when it said it was finished
+	inflight int64
+	atfin    int64
 }
 
 func (s *rpsSched) finished() {
@@ -140,6 +150,7 @@ func (s *rpsSched) finished() {
 	s.mu.Lock()
 	if s.fin < 0 {
 		s.fin = t
+		s.atfin = s.given + s.inflight
 	}
 	s.mu.Unlock()
 }
@@ -150,14 +161,22 @@ func (s *rpsSched) Next() (time.Time, bool) {
 	if s.first < 0 {
 		s.first = t
 	}
+	s.inflight++
 	s.mu.Unlock()
 	ts, ok := s.Schedule.Next()
+	s.mu.Lock()
+	s.inflight--
+	if ok {
+		s.given++
+	}
+	s.mu.Unlock()
 	if !ok {
 		s.finished()
 	} else {
-		s.mu.Lock()
-		s.given++
-		s.mu.Unlock()
+		g := trec.Goid()
+		s.r.mu.Lock()
+		s.r.lastTok[g] = s.r.clk.Of(ts)
+		s.r.mu.Unlock()
 	}
 	return ts, ok
 }
@@ -270,6 +289,9 @@ type recGun struct {
 	panicID  int64 // the gun bound with this InstanceID …
 	panicAt  int64 // … panics in its panicAt-th Shoot (0: never)
 	nshots   int64
+	stallID  int64         // round 6: the gun bound with this InstanceID …
+	stallAt  int64         // … hangs in its stallAt-th Shoot (0: never) …
+	stallFor time.Duration // … for that long (a hiccup of the target)
 }
 
 func (g *recGun) Bind(_ core.Aggregator, deps core.GunDeps) error {
@@ -314,6 +336,14 @@ func (g *recGun) Shoot(core.Ammo) {
 		g.r.cut("panic")
 		panic("gun failure")
 	}
+	if g.stallAt > 0 && g.id == g.stallID && g.nshots == g.stallAt {
+		time.Sleep(g.stallFor)
+		te := g.r.clk.Now()
+		g.r.mu.Lock()
+		g.r.stalled = te
+		g.r.mu.Unlock()
+		return
+	}
 	if g.resp > 0 {
 		time.Sleep(g.resp)
 	}
@@ -356,7 +386,20 @@ func (a nopAggr) Run(ctx context.Context, _ core.AggregatorDeps) error {
 		return errors.New("aggregator failed")
 	}
 }
-func (nopAggr) Report(core.Sample) {}
+
+// Report: the guns of the harness never report; the only caller is the discard branch of instance.Run, in the goroutine of the
+// instance: the token it has just waited for is the last one that goroutine drew
+func (a nopAggr) Report(core.Sample) {
+	t := a.r.clk.Now()
+	g := trec.Goid()
+	a.r.mu.Lock()
+	if ts, ok := a.r.lastTok[g]; ok {
+		a.r.discards = append(a.r.discards, t-ts)
+	} else {
+		a.r.discards = append(a.r.discards, -1) // a report without a token
+	}
+	a.r.mu.Unlock()
+}
 
 // splitTop splits at '+' outside brackets
 func splitTop(p string) []string {
@@ -528,6 +571,9 @@ func decodePool(id string, m map[string]string) engine.InstancePoolConfig {
 	if m["perinst"] == "1" {
 		text += "    rps-per-instance: true\n"
 	}
+	if d, ok := m["discard"]; ok {
+		text += "    discard_overflow: " + map[bool]string{true: "true", false: "false"}[d == "1"] + "\n"
+	}
 	text += "    rps: " + yamlProfile(m["rps"]) + "\n    startup: " + yamlProfile(m["startup"]) + "\n"
 	mapCfg := map[string]any{}
 	if err := yaml.Unmarshal([]byte(text), &mapCfg); err != nil {
@@ -581,17 +627,19 @@ type poolCase struct {
 }
 
 func newPoolCase(id string, m map[string]string) *poolCase {
-	pc := &poolCase{id: id, m: m, r: &rec{cuts: map[string]int64{}, lastShot: -1, gunCtx: -1, shots: map[int64]int64{}}}
+	pc := &poolCase{id: id, m: m, r: &rec{cuts: map[string]int64{}, lastShot: -1, gunCtx: -1, shots: map[int64]int64{}, lastTok: map[int64]int64{}, stalled: -1}}
 	// where the schedules come from: the constructors called directly, or the decoded config file
 	mkStartup := func() core.Schedule { return buildProfile(m["startup"]) }
 	mkRps := func() (core.Schedule, error) { return buildProfile(m["rps"]), nil }
 	perinst := m["perinst"] == "1"
+	discard := m["discard"] == "1"
 	pc.leafCounts = m["cfg"] != "yaml"
 	if m["cfg"] == "yaml" {
 		mkStartup = func() core.Schedule { return decodePool(id, m).StartupSchedule }
 		dec := decodePool(id, m)
 		mkRps = dec.NewRPSSchedule
 		perinst = dec.RPSPerInstance
+		discard = dec.DiscardOverflow
 		pc.id = dec.ID
 	}
 	if fresh, err := mkRps(); err == nil {
@@ -647,6 +695,17 @@ func newPoolCase(id string, m map[string]string) *poolCase {
 		panicID, _ = strconv.ParseInt(f[0], 10, 64)
 		panicAt, _ = strconv.ParseInt(f[1], 10, 64)
 	}
+	stallID, stallAt, stallFor := int64(-1), int64(0), time.Duration(0)
+	if ps, ok := m["stall"]; ok {
+		f := strings.Split(ps, ":")
+		if len(f) != 3 {
+			panic("bad stall")
+		}
+		stallID, _ = strconv.ParseInt(f[0], 10, 64)
+		stallAt, _ = strconv.ParseInt(f[1], 10, 64)
+		ms, _ := strconv.ParseInt(f[2], 10, 64)
+		stallFor = time.Duration(ms) * time.Millisecond
+	}
 	attempt := func() {
 		t := r.clk.Now()
 		r.mu.Lock()
@@ -692,9 +751,10 @@ func newPoolCase(id string, m map[string]string) *poolCase {
 				failed()
 				return nil, errors.New("gun cannot be created")
 			}
-			return &recGun{r: r, resp: resp, id: -1, failBind: n >= 0 && n == failbind, closeErr: closeErr, panicID: panicID, panicAt: panicAt}, nil
+			return &recGun{r: r, resp: resp, id: -1, failBind: n >= 0 && n == failbind, closeErr: closeErr, panicID: panicID, panicAt: panicAt, stallID: stallID, stallAt: stallAt, stallFor: stallFor}, nil
 		},
-		RPSPerInstance: perinst,
+		RPSPerInstance:  perinst,
+		DiscardOverflow: discard,
 		NewRPSSchedule: func() (core.Schedule, error) {
 			if perinst {
 				// with per-instance schedules this is the first thing newInstance does: the creation attempt
@@ -725,7 +785,7 @@ func newPoolCase(id string, m map[string]string) *poolCase {
 			} else if inner, err = mkRps(); err != nil {
 				return nil, err
 			}
-			rs := &rpsSched{Schedule: inner, r: r, first: -1, fin: -1}
+			rs := &rpsSched{Schedule: inner, r: r, first: -1, fin: -1, atfin: -1}
 			pc.rpsMu.Lock()
 			pc.rpss = append(pc.rpss, rs)
 			pc.rpsMu.Unlock()
@@ -920,7 +980,7 @@ func (pc *poolCase) observation(logs *observer.ObservedLogs, e string, end int64
 	for _, id := range ids {
 		shots = append(shots, fmt.Sprintf("%d:%d", id, r.shots[id]))
 	}
-	var spans, given []string
+	var spans, given, atfin []string
 	rpsOut, rpsLeaf := int64(0), int64(-1)
 	if pc.leafCounts {
 		rpsLeaf = atomic.LoadInt64(&pc.rpsLeaf)
@@ -936,14 +996,15 @@ func (pc *poolCase) observation(logs *observer.ObservedLogs, e string, end int64
 			}
 			spans = append(spans, fmt.Sprintf("%d:%d", first, rs.fin))
 			given = append(given, strconv.FormatInt(rs.given, 10))
+			atfin = append(atfin, strconv.FormatInt(rs.atfin, 10))
 		}
 		rs.mu.Unlock()
 	}
 	pc.rpsMu.Unlock()
-	return fmt.Sprintf("k=%d err=%s end=%d mstart=%d fails=%d total=%d started=%d starterr=%s running=%d ids=%s toks=%s picks=%s ctoks=%s guns=%s binds=%s exits=%s cuts=%s jitter=%d lastshot=%d gunctx=%d allawaited=%d shots=%s rpstot=%d rpsmin=%d rpsspans=%s mfin=%d rpsgiven=%s rpsl0=%d sul0=%d rpsleaf=%d rpsout=%d",
+	return fmt.Sprintf("k=%d err=%s end=%d mstart=%d fails=%d total=%d started=%d starterr=%s running=%d ids=%s toks=%s picks=%s ctoks=%s guns=%s binds=%s exits=%s cuts=%s jitter=%d lastshot=%d gunctx=%d allawaited=%d shots=%s rpstot=%d rpsmin=%d rpsspans=%s mfin=%d rpsgiven=%s rpsl0=%d sul0=%d rpsleaf=%d rpsout=%d rpsatfin=%s discards=%s stalled=%d",
 		len(r.binds), e, end, int64(len(r.binds))+extraStarts, r.fails, len(pc.ctoks), started, starterr, len(r.binds)-len(r.exits), joinInts(ids),
 		joinInts(r.toks), joinInts(r.picks), joinInts(pc.ctoks), joinInts(r.guns), strings.Join(binds, ","), strings.Join(exits, ","), strings.Join(cuts, ","), jitter,
-		r.lastShot, r.gunCtx, allAwaited, strings.Join(shots, ","), pc.rpsTot, rpsMin(pc.m["rps"]), strings.Join(spans, ","), int64(len(r.exits))+extraFinishes, strings.Join(given, ","), pc.rpsLeft0, pc.suLeft0, rpsLeaf, rpsOut)
+		r.lastShot, r.gunCtx, allAwaited, strings.Join(shots, ","), pc.rpsTot, rpsMin(pc.m["rps"]), strings.Join(spans, ","), int64(len(r.exits))+extraFinishes, strings.Join(given, ","), pc.rpsLeft0, pc.suLeft0, rpsLeaf, rpsOut, strings.Join(atfin, ","), joinInts(r.discards), r.stalled)
 }
 
 // startup profiles with every token at a multiple of 1 s (so that causes can be placed 500 ms away from every token)
@@ -1155,6 +1216,51 @@ func withUnknownRps(r *rand.Rand) string {
 		[]int{0, 0, 0, 30 + r.Intn(100)}[r.Intn(4)], 5+5*r.Intn(3), []string{"", "", " prov=mem"}[r.Intn(3)])
 }
 
+// withPauseRace (round 6): K instances started at once and MORE startup tokens later; a SHARED RPS profile whose first part is a
+// burst the K instances drain together, behind it a part WITHOUT tokens (a pause, an empty once, an empty composite) and then a
+// part that outlives the startup window — with sleeps at the scheduling points of composite.go (yield=) several instances are
+// between the reader and the writer section of Next() when the first of them moves the profile on to the token-less part.
+// Whatever the interleaving, the profile may say "finished" only after its last token (rpsatfin), and every later startup token
+// must still become an instance.
+func withPauseRace(r *rand.Rand) string {
+	k := 2 + r.Intn(3)
+	zero := []string{"const:0:200", "once:0", "const:0:100+once:0", "none", "const:0:300", "[const:0:100+const:0:100]"}[r.Intn(6)]
+	head := []string{fmt.Sprintf("once:%d", k), fmt.Sprintf("once:%d", 2*k), fmt.Sprintf("[once:%d+once:%d]", k, k), fmt.Sprintf("const:0:100+once:%d", k)}[r.Intn(4)]
+	later := 500 + 100*r.Intn(4)
+	su := fmt.Sprintf("once:%d+const:0:%d+once:%d", k, later, 1+r.Intn(2))
+	if r.Intn(3) == 0 {
+		su = fmt.Sprintf("once:%d+const:0:%d+step:1:2:1:300", k, later)
+	}
+	tail := fmt.Sprintf("const:%d:%d", []int{10, 20}[r.Intn(2)], later+1000)
+	if r.Intn(3) == 0 {
+		tail = fmt.Sprintf("once:%d+%s+%s", k, zero, tail)
+	}
+	return fmt.Sprintf("startup=%s rps=%s+%s+%s ammo=0 resp=%d yield=%d%s", su, head, zero, tail, 2+r.Intn(5), 500*(1+r.Intn(6)),
+		[]string{"", " prov=mem"}[r.Intn(2)])
+}
+
+// withStall (round 6): one shot of instance 0 hangs (a hiccup of the target) for longer / shorter than coreutil.MaxOverdueDuration,
+// with and without discard_overflow.  With per-instance profiles (two tokens at once, a pause longer than the hiccup, then a slow
+// const part) the second token is overdue by the length of the hiccup when the instance comes back — discarded only if the option
+// is on and it is >= 2 s late — and every later token is waited for in time: it must be FIRED.  With a shared profile (a burst too
+// large for the other instances to drain during the hiccup, then a slow part) the same holds for what instance 0 draws afterwards.
+func withStall(r *rand.Rand) string {
+	stall := []int{2100, 2300, 2600}[r.Intn(3)]
+	if r.Intn(4) == 0 {
+		stall = []int{300, 1200, 1900}[r.Intn(3)]
+	}
+	disc := []string{" discard=1", " discard=1", " discard=1", "", " discard=0"}[r.Intn(5)]
+	su := []string{"once:2", "once:1+const:0:300+once:1", "once:3", "step:1:2:1:200"}[r.Intn(4)]
+	cfg := ""
+	if r.Intn(4) == 0 && disc != "" {
+		cfg = " cfg=yaml"
+	}
+	if r.Intn(3) != 0 {
+		return fmt.Sprintf("startup=%s rps=once:2+const:0:%d+const:%d:1500 perinst=1 ammo=0 resp=%d stall=0:1:%d%s%s", su, stall+400, 2+2*r.Intn(2), 5*r.Intn(3), stall, disc, cfg)
+	}
+	return fmt.Sprintf("startup=%s rps=once:%d+const:0:%d+const:%d:1500 ammo=0 resp=100 stall=0:1:%d%s%s", su, 90+r.Intn(20), stall+400, 4+2*r.Intn(2), stall, disc, cfg)
+}
+
 var gridProfiles = []string{
 	"once:1", "once:3", "const:1:3000", "step:0:4:2:1000", "step:1:3:1:1000", "step:2:7:3:1000",
 	"once:2+const:0:1000+once:2", "once:1+const:0:2000+once:1+const:0:1000+once:2", "step:1:2:1:1000+const:1:2000",
@@ -1306,6 +1412,21 @@ func gen(r *rand.Rand, tier string) []string {
 		"startup=[once:1+const:0:500]+[once:1+[const:0:500+once:2]]+step:0:2:1:300 rps=const:10:500+const:0:200+unlim:300 perinst=1 ammo=0 resp=10 cfg=yaml",
 		"startup=constm:2500:1000+step:1:3:2:700 rps=[const:10:1200+once:2]+const:0:300+once:1 ammo=0 resp=0 cfg=yaml || startup=const:1:2000 rps=const:10:2600 ammo=12 resp=0 cfg=yaml",
 	)
+	out = append(out,
+		// round 6 — a SHARED RPS profile with a token-less part behind a burst that K instances drain together (yield=: they are all
+		// between the reader and the writer section of Next() when the first one moves on to the pause), the startup profile still
+		// having tokens to come: "finished" only after the last token, every startup token an instance
+		"startup=once:2+const:0:600+once:2 rps=once:2+const:0:300+const:10:1800 ammo=0 resp=5 yield=2000",
+		"startup=once:3+const:0:800+once:1 rps=once:6+once:0+const:20:2000 ammo=0 resp=3 yield=1500 prov=mem",
+		"startup=once:4+const:0:500+step:1:2:1:300 rps=[once:4+once:4]+none+const:0:200+const:10:2000 ammo=0 resp=4 yield=1000",
+		// round 6 — a shot that hangs for more than MaxOverdueDuration (2 s) with discard_overflow on: the token that became >= 2 s
+		// overdue meanwhile is discarded, every token waited for in time afterwards is FIRED; the same with the option off / a
+		// shorter hiccup: nothing is discarded
+		"startup=once:2 rps=once:2+const:0:3000+const:2:1500 perinst=1 ammo=0 resp=0 stall=0:1:2500 discard=1",
+		"startup=once:2 rps=once:100+const:0:2800+const:4:1500 ammo=0 resp=100 stall=0:1:2400 discard=1",
+		"startup=once:1+const:0:300+once:1 rps=once:2+const:0:2700+const:2:1500 perinst=1 ammo=0 resp=0 stall=0:1:2300",
+		"startup=once:2 rps=once:2+const:0:1600+const:4:1500 perinst=1 ammo=0 resp=5 stall=0:1:1200 discard=1 cfg=yaml",
+	)
 	// every fourth generated pool is described as a config file
 	asFile := func(in string) string {
 		segs := strings.Split(in, " || ")
@@ -1318,8 +1439,10 @@ func gen(r *rand.Rand, tier string) []string {
 		return strings.Join(segs, " || ")
 	}
 	n, nfree, npools, nunk, nrace := 14, 6, 2, 4, 3
+	npause, nstall := 4, 3
 	if tier == "thorough" {
 		n, nfree, npools, nunk, nrace = 1000, 800, 150, 150, 80
+		npause, nstall = 100, 60
 		// exhaustive small grid: every profile shape x every cause x every position of the cause
 		for _, su := range gridProfiles {
 			out = append(out, withCause(r, su, 0, 0), withCause(r, su, 5, 0))
@@ -1358,6 +1481,12 @@ func gen(r *rand.Rand, tier string) []string {
 	}
 	for i := 0; i < nrace; i++ {
 		out = append(out, withBoundaryRace(r))
+	}
+	for i := 0; i < npause; i++ {
+		out = append(out, withPauseRace(r))
+	}
+	for i := 0; i < nstall; i++ {
+		out = append(out, withStall(r))
 	}
 	return out
 }
@@ -1407,7 +1536,32 @@ func class(in, obs string) string {
 	if o["k"] != o["total"] {
 		full = "cut-short"
 	}
-	return c + "/cause:" + cut + "/" + full
+	c += "/cause:" + cut + "/" + full
+	// round 6: the further dimensions of the input (shared / per-instance RPS, kind of RPS profile, hooks, hiccups, discards seen)
+	rk := "rps:plain"
+	switch {
+	case strings.Contains(m["rps"], "unlim"):
+		rk = "rps:unknown-length"
+	case strings.Contains(m["rps"], "+"):
+		rk = "rps:composite"
+	}
+	if m["perinst"] == "1" {
+		rk += "(per-instance)"
+	}
+	c += "/" + rk
+	for _, k := range []string{"yield", "stall", "cfg", "prov", "failgun", "failbind", "failsched", "closeerr", "panicshot", "gundelay"} {
+		if _, ok := m[k]; ok {
+			c += "/" + k
+		}
+	}
+	if m["discard"] == "1" {
+		n := 0
+		if o["discards"] != "" {
+			n = len(strings.Split(o["discards"], ","))
+		}
+		c += fmt.Sprintf("/discard-on:%d-discarded", n)
+	}
+	return c
 }
 
 // runIsolated runs one case in a child process (this binary, `-child <input>`): a panic in a goroutine of the engine or a
